@@ -131,10 +131,12 @@ theorem exec_le (e : Env) : ∀ (f : Nat) (sk : Sk) (st st' : St), exec e f sk s
       | succ k =>
         simp only [exec] at h
         split at h
-        · cases h
-        · rename_i st1 h1
-          have l0 : le st (tick e { st with items := st.items + 1 }) := ⟨Nat.le_succ _, Nat.le_refl _⟩
-          exact le_trans (le_trans l0 (ih b _ st1 h1)) (ih _ st1 st' h)
+        · cases h; exact le_halt e st
+        · split at h
+          · cases h
+          · rename_i st1 h1
+            have l0 : le st (tick e { st with items := st.items + 1 }) := ⟨Nat.le_succ _, Nat.le_refl _⟩
+            exact le_trans (le_trans l0 (ih b _ st1 h1)) (ih _ st1 st' h)
     | forC n b =>
       simp only [exec] at h
       split at h
@@ -199,18 +201,8 @@ theorem exec_cancelled (e : Env) : ∀ (f : Nat) (sk : Sk) (st st' : St),
         simp only [exec] at h; cases h
         exact ⟨hc, rfl, fun hd => hd.elim (fun x => by simp [lead] at x) id⟩
       | succ k =>
-        simp only [exec] at h
-        split at h
-        · cases h
-        · rename_i st1 h1
-          have c0 : cancelled e (tick e { st with items := st.items + 1 }) = true :=
-            cancelled_mono e ⟨Nat.le_succ _, Nat.le_refl _⟩ hc
-          obtain ⟨c1, l1, d1⟩ := ih b _ st1 c0 h1
-          obtain ⟨c2, l2, d2⟩ := ih _ st1 st' c1 h
-          refine ⟨c2, by rw [l2, l1]; rfl, fun hd => ?_⟩
-          cases hd with
-          | inl x => simp [lead] at x
-          | inr hd => exact d2 (Or.inr (d1 (Or.inr hd)))
+        simp only [exec, hc, if_true] at h; cases h
+        exact ⟨hh.1, hh.2.1, fun _ => hh.2.2⟩
     | forC n b =>
       simp only [exec, hc, if_true] at h; cases h
       exact ⟨hh.1, hh.2.1, fun _ => hh.2.2⟩
@@ -299,7 +291,7 @@ theorem exec_after_of_not (e : Env) : ∀ (f : Nat) (sk : Sk) (st st' : St),
       cases k with
       | zero => simp only [exec] at h; cases h; rfl
       | succ k =>
-        simp only [exec] at h
+        simp only [exec, hst, Bool.false_eq_true, if_false] at h
         split at h
         · cases h
         · rename_i st1 h1
@@ -464,14 +456,35 @@ theorem exec_after_bound (e : Env) : ∀ (f : Nat), BoundAt e f := by
         | succ k =>
           simp only [exec] at h
           split at h
-          · cases h
-          · rename_i st1 h1
-            have t0 := tick_after_le e { st with items := st.items + 1 }
-            have b1 := ihf b _ st1 (by simpa [wf] using hw) h1
-            have b2 := ihf (.forItems k b) st1 st' (by simpa [wf] using hw) h
-            simp only [unwind, Nat.succ_mul] at b2 ⊢
-            have e0 : ({ st with items := st.items + 1 } : St).after = st.after := rfl
-            omega
+          · cases h; have := halt_after_le e st; simp only [unwind]; omega
+          · rename_i hst
+            have hst' : cancelled e st = false := by simpa using hst
+            have hst'' : cancelled e { st with items := st.items + 1 } = false :=
+              (cancelled_congr e rfl rfl).trans hst'
+            have t0 : (tick e { st with items := st.items + 1 }).after = st.after :=
+              tick_after_of_not e _ hst''
+            split at h
+            · cases h
+            · rename_i st1 h1
+              have b1 := ihf b _ st1 (by simpa [wf] using hw) h1
+              cases hc1 : cancelled e st1 with
+              | true =>
+                -- the next iteration's stop check ends the loop
+                cases f with
+                | zero => simp [exec] at h
+                | succ f =>
+                  cases k with
+                  | zero => simp only [exec] at h; cases h; simp only [unwind]; omega
+                  | succ k =>
+                    simp only [exec, hc1, if_true] at h
+                    cases h
+                    have := halt_after_le e st1
+                    simp only [unwind]; omega
+              | false =>
+                have e1 : st1.after = (tick e { st with items := st.items + 1 }).after :=
+                  exec_after_of_not e _ _ _ _ h1 hc1
+                have b2 := ihf (.forItems k b) st1 st' (by simpa [wf] using hw) h
+                simp only [unwind] at b2 ⊢; omega
       | forC n b =>
         simp only [exec] at h
         split at h
@@ -544,14 +557,7 @@ theorem exec_terminates (e : Env) : ∀ (f : Nat) (sk : Sk) (st : St),
     | forItems k b =>
       cases k with
       | zero => exact ⟨st, by simp only [exec]⟩
-      | succ k =>
-        simp only [depth] at hd
-        have c0 : cancelled e (tick e { st with items := st.items + 1 }) = true :=
-          cancelled_mono e ⟨Nat.le_succ _, Nat.le_refl _⟩ hc
-        obtain ⟨st1, h1⟩ := ih b _ (by simpa [wf] using hw) c0 (by omega)
-        obtain ⟨c1, _, _⟩ := exec_cancelled e f b _ st1 c0 h1
-        obtain ⟨st2, h2⟩ := ih (.forItems k b) st1 (by simpa [wf] using hw) c1 (by simp only [depth]; omega)
-        exact ⟨st2, by simp only [exec, h1, h2]⟩
+      | succ k => exact ⟨halt e st, by simp only [exec, hc, if_true]⟩
     | forC n b => exact ⟨halt e st, by simp only [exec, hc, if_true]⟩
     | forCIter i n b =>
       simp only [wf, Bool.and_eq_true] at hw
